@@ -1315,4 +1315,4 @@ def check(run):
     run.rule('R3', r3_accounting, 'WSGI: the amount deducted is the number of bytes obtained; decisions about consumption rest on bytes obtained; the budget is forced to 0 only on a proven end of stream', floor=5)
     run.rule('R4', r4_conservation, 'ASGI: per-path conservation in the receive loops (bytes handed on, budget, position <= Content-Length); draining operations leave nothing in the buffer', floor=15)
     run.rule('R5', r5_termination, 'ASGI: loops end on disconnect / missing keys; constructor clamps', floor=10)
-    run.rule('R6', r6_lazy, 'lazy, memoised wrapping from Content-Length', floor=4)
+    run.rule('R6', r6_lazy, 'lazy, memoised wrapping from Content-Length; the budget is fed only by the server-framed length (CONTENT_LENGTH / content-length), never by an HTTP_* key', floor=6)
